@@ -28,6 +28,15 @@ def plan(which=None):
     for c in cm.method_contracts():
         callees = [x for q, x in cs.items() if q != c.qual]
         tasks.append((c, callees, cm.loop_specs(), ""))
+    from contracts import core as cc
+    ls = dict(cm.loop_specs())
+    ls[("iOpt/evolvent/evolvent.py", "Evolvent.__init__", 0)] = cc.evolvent_init_loop()
+    for c, callees in cm.establishment_tasks():
+        tasks.append((c, callees, ls, ""))
+    # the constructors the base case relies on (bodies verified against the contracts used above)
+    for f in (cc.method_init, cc.process_init, cc.optimization_task_init, cc.solution_init):
+        c = f()
+        tasks.append((c, [x() for x in cc.CONSTRUCTORS if x is not f], ls, ""))
     if which:
         tasks = [t for t in tasks if t[0].qual in which]
     return tasks
@@ -70,8 +79,43 @@ ASSUME_COMMON = [
 ]
 
 
+# base case of every 'after any number of iterations' / 'at every moment' property of this group: a freshly constructed
+# solver satisfies the pre-condition of its first Solve / DoGlobalIteration
+ESTABLISH = ["Solver.__init__", "SearchData.__init__", "Method.__init__", "Process.__init__", "OptimizationTask.__init__",
+             "Solution.__init__"]
+
+
+# clauses that only some properties state (regular expressions over the clause text of an obligation).  Everything else
+# (the shared object invariant, safety, frames, termination) belongs to every property of the group.
+import re
+_TRACE = re.compile(r"\bgt(n|kind|who|a|b)\b|\bgb0\b|\bgp_[a-z]+\b|\bgsaved\b")
+_CHAR = re.compile(r"\bgcnt\b|\bgkeys\b|\bgitems\b|\bglen\b|\bglobalR\b|\brs\(|\bslope\(|\bdepq_ok\b|\brpow\(")
+SCOPE = [(_TRACE, {"C13"}), (_CHAR, {"C02", "C01"})]
+
+
+def in_scope_for(pid):
+    def f(item):
+        kind = str(item.get("kind", ""))
+        if not kind.startswith(("ensures", "inv-", "requires[", "ghost-assert", "raises")) or "#nonnull" in kind:
+            return True          # safety, frames, arity, termination, division: every property's business
+        txt = item.get("clause", "") or ""
+        for rx, pids in SCOPE:
+            if rx.search(txt) and pid not in pids:
+                # a clause that ALSO mentions something else is still that other property's clause only if every
+                # tagged family it mentions excludes this property
+                return False
+        return True
+    return f
+
+
 def run_check(pid, tier, seed, which, oracle_mode, extra_assumptions=(), post=None, known_matcher=None):
     chk = runner.Check(pid, tier, seed)
+    if pid != "C01":
+        # every property of this group is a statement about whole runs: it depends on the complete iteration body and its
+        # drivers, so every function of the method layer is verified in every check (a clause that only another property
+        # states is filtered by `in_scope_for`); `which` documents the functions the property is anchored in
+        which = list(which) + [c.qual for c in cm.method_contracts() if c.qual not in which]
+    which = list(which) + [e for e in ESTABLISH if e not in which]
     reps = build(which)
     verify.finish_reports(reps)
     for rep in reps:
@@ -87,7 +131,7 @@ def run_check(pid, tier, seed, which, oracle_mode, extra_assumptions=(), post=No
             cache["r"] = runner.native("native/method_oracle.py", {"mode": oracle_mode, "seed": seed}, timeout=1500)
         r = cache["r"]
         return r["failures"][0] if r["failures"] else None
-    return chk.finish(oracle=oracle, known_matcher=known_matcher)
+    return chk.finish(oracle=oracle, known_matcher=known_matcher, in_scope=in_scope_for(pid))
 
 
 def d7_obligation(chk):
